@@ -49,21 +49,21 @@ func (r *rng) bytes(n int) []byte {
 	return b
 }
 func (r *rng) chance(num, den int) bool { return r.intn(den) < num }
-func (r *rng) pick(xs []int) int       { return xs[r.intn(len(xs))] }
+func (r *rng) pick(xs []int) int        { return xs[r.intn(len(xs))] }
 
 // ---------- output ----------
 
 type out struct {
-	dir     string
-	cases   *bufio.Writer
-	impl    *bufio.Writer
-	monitor *bufio.Writer
-	files   []*os.File
-	n       int
-	nfail   int
-	stats   map[string]int
-	samples []string
-	distinct map[string]struct{}
+	dir        string
+	cases      *bufio.Writer
+	impl       *bufio.Writer
+	monitor    *bufio.Writer
+	files      []*os.File
+	n          int
+	nfail      int
+	stats      map[string]int
+	samples    []string
+	distinct   map[string]struct{}
 	nontrivial int
 }
 
@@ -171,7 +171,7 @@ func (o *out) fail(kind, detail string) {
 	fmt.Fprintf(o.monitor, "%s\t%s\n", kind, detail)
 }
 
-func (o *out) count(key string) { o.stats[key]++ }
+func (o *out) count(key string)         { o.stats[key]++ }
 func (o *out) countN(key string, n int) { o.stats[key] += n }
 
 func (o *out) close(extra map[string]interface{}) {
